@@ -260,9 +260,7 @@ func c12prop(ev *evid.Rec) func(rt *rapid.T) {
 					for _, c := range clients {
 						c.connected = false
 					}
-					for _, ch := range chats {
-						ch.members, ch.invited = map[int]bool{}, map[int]bool{}
-					}
+					chats = chats[:0] // the new server knows none of the old chats (requests naming unknown chats are the unknownChat action)
 					editor = loginAs(rt, w, "10.12.9.250:1", "editor", "epw", "editor")
 					nextID = 1
 					first := rapid.IntRange(0, nacc-1).Draw(rt, "first")
@@ -352,6 +350,36 @@ func c12prop(ev *evid.Rec) func(rt *rapid.T) {
 						fail("invite-to-chat without open-chat privilege not refused")
 					}
 					verify("invite to chat", exp)
+				},
+				"inviteByNonMember": func(rt *rapid.T) {
+					// somebody who is not in the chat (left it, declined, was only invited, or just knows the id) sends an
+					// invitation for it.  Whether the invitation is forwarded is not what the property constrains; sending it
+					// does not make the sender a member: the steps that follow verify that lines still reach exactly the members
+					ch := pickChat("chat", func(ch *c12chat) bool { return true })
+					if ch == nil {
+						rt.Skip()
+					}
+					c := pick("who", func(o *c12client) bool { return o.connected && !ch.members[o.idx] })
+					if c == nil {
+						rt.Skip()
+					}
+					t := pick("target", func(o *c12client) bool { return o.connected && !ch.members[o.idx] && o != c })
+					if t == nil {
+						rt.Skip()
+					}
+					history = append(history, fmt.Sprintf("invite-by-non-member %d->%d chat%d", c.idx, t.idx, chatIndex(chats, ch)))
+					c.conn.Request(hlref.TranInviteToChat, fld(hlref.FUserID, hlref.BE16(t.id)), fld(hlref.FChatID, []byte(ch.id)))
+					want := fmt.Sprintf("113 chat=%x from=%x name=%q", ch.id, hlref.BE16(c.id), c.name)
+					for _, tr := range t.conn.TakeInbox() {
+						if !chatRelevant(tr) {
+							continue
+						}
+						if chatNorm(tr) != want {
+							fail("invite by a non-member: the target (client %d) received %s", t.idx, chatNorm(tr))
+						}
+						ch.invited[t.idx] = true
+					}
+					verify("invite by a non-member", nil)
 				},
 				"join": func(rt *rapid.T) {
 					ch := pickChat("chat", func(ch *c12chat) bool { return true })
